@@ -76,6 +76,7 @@ pub const REQUIRED: &[&str] = &[
     "variant_ptr_permuted",
     "variant_labels_permuted",
     "variant_filler",
+    "poisoned_by_failing_calls_first",
 ];
 
 fn s(x: &str) -> String {
@@ -443,6 +444,7 @@ pub fn run(cx: &mut Ctx) {
         }
         let quick = cx.a.quick();
         cx.case("random", |c| {
+            super::poison::maybe(c, 7);
             let mut rng = c.rng.clone();
             let max_cells = if cfg!(miri) {
                 6
